@@ -369,9 +369,15 @@ fn judge_under<T: Sc>(idx: usize, l: &SuLine, rep: &mut Report) {
     let xs: Vec<T> = l.x.iter().map(|&v| T::of64(v as f64)).collect();
     let y = DMatrix::from_fn(n, 1, |i, _| T::of64(l.y[i] as f64));
     let w: Option<Vec<T>> = if l.w.is_empty() { None } else { Some(l.w.iter().map(|&v| T::of64(v as f64)).collect()) };
-    for par in [false, true] {
-        let flav = format!("under line={} fam={}({},{},{}) N={} {} par={}", idx, l.fam.name, l.fam.m, l.fam.p, l.fam.seed, n, T::NAME, par);
-        let prob = match make::<T>(MKind::Table, &l.fam, &table, &xs, &l.a, &y, w.as_deref(), par) {
+    // (with the default threshold and with a caller's threshold that truncates part of the spectrum:
+    // the count that matters is the number of basis functions, not a numerical rank)
+    for (par, thr) in [(false, None), (true, None), (false, Some(1.5f64)), (true, Some(0.6))] {
+        let flav = format!("under line={} fam={}({},{},{}) N={} {} par={} eps={:?}", idx, l.fam.name, l.fam.m, l.fam.p, l.fam.seed, n, T::NAME, par, thr);
+        let built = match thr {
+            None => make::<T>(MKind::Table, &l.fam, &table, &xs, &l.a, &y, w.as_deref(), par),
+            Some(e) => build_problem(TableModel::new(table.clone(), &l.a), false, par, &y, w.as_deref(), Some(T::of64(e))).map_err(|e| format!("{e:?}")),
+        };
+        let prob = match built {
             Ok(p) => p,
             Err(e) => {
                 rep.tool_error(format!("under: cannot build {flav}: {e}"));
@@ -382,6 +388,9 @@ fn judge_under<T: Sc>(idx: usize, l: &SuLine, rep: &mut Report) {
         match out {
             Err(_) => rep.violation("C12", json!({"flavour": flav, "what": "fit_with_statistics panicked on an under-determined problem (N <= M+P)", "profile": if cfg!(debug_assertions) {"dev"} else {"release"}, "key": format!("underdetermined N={} M+P={}", n, l.fam.m + l.fam.p)})),
             Ok(Some(o)) => {
+                if thr.is_some() && o.fit.was_successful {
+                    rep.count("underdetermined_truncated_successful_fits", 1);
+                }
                 rep.check("C12", o.stats.is_none() && !o.fit.ok, 0.0, || {
                     json!({"flavour": flav, "what": "fit_with_statistics returned Ok although N <= M+P"})
                 });
